@@ -105,11 +105,15 @@ CLAIMED = {
         "every refused call of the implementation. Dimension calls (ticks, link_data_array, labels, remove_link): every refused "
         "call returns the state it was given, with the exact refusal conditions (Pure/DimLink.v), tied by dimension histories in "
         "which all stored fields and reported values are compared before/after every refusal. EXERCISED, NOT MODELLED (test level, "
-        "labelled as such): a sweep of ~95 public creating/mutating calls x classes of invalid argument on a fixed file, with the "
-        "complete HDF5 content (objects, link names in order, attributes incl. timestamps, datasets) compared before/after and the "
-        "rejected name retried with a valid argument.",
+        "labelled as such): a sweep of ~140 hand-written public creating/mutating calls x classes of invalid argument on a fixed "
+        "file, with the complete HDF5 content (objects, link names in order, attributes incl. timestamps, datasets) compared "
+        "before/after and the rejected name retried with a valid argument; and a generic refusal fuzzer (reflection over every "
+        "settable attribute and creating/appending/linking/writing method of every kind of object x 26 ill-typed / ill-shaped / "
+        "out-of-range / wrong-kind values per parameter: ~9 700 calls over ~370 call sites, a seeded sample of 640 in quick, all "
+        "in thorough) under the same before/after comparison.",
         "Trusted: see evidence.trusted_base. Refusals of data writes are covered by C01 (arrays), C10 (values), C16 (data frames); "
-        "DataFrame dimension links are not modelled.",
+        "DataFrame dimension links are exercised by the sweep and the fuzzer, not modelled. A refused call may leave one new EMPTY "
+        "container group (unreadable through the API; theorem c12_nested_creators states it for the modelled creators).",
         "DESIGN.md section 5 C12", TECH),
     "C19": (
         "Coq theorems: (calendar) every whole second in [1970, 2100) survives time_to_str then str_to_time - the day<->civil part "
